@@ -2,7 +2,7 @@
     atomically (PARTIAL: the kernel honouring the contract written at the top
     of Base/FS.v is assumed).  Only statements here; proofs: Proofs/FS.v,
     Proofs/Writers.v. *)
-From Coq Require Import String List NArith.
+From Coq Require Import String List NArith Bool.
 From AGH Require Import Base.FS Proofs.FS Model.Writers Gen.Writers Proofs.Writers.
 Import ListNotations.
 Local Open Scope N_scope.
@@ -59,6 +59,119 @@ Theorem C14_rename_without_fsync_unsafe :
 Proof. exact rename_without_fsync_unsafe. Qed.
 Print Assumptions C14_rename_without_fsync_unsafe.
 
+(** "The path exists at every instant".  At every instant of an accepted
+    trace a reader finds at dst exactly the LATEST published version (so:
+    never nothing once there was a file, never a mix, never an older version
+    again). *)
+Theorem C14_live_tracks_versions : forall dst s t1 t2,
+  quiescent s dst -> trace_safe dst s (t1 ++ t2) = true ->
+  live_view (run s t1) dst = last (all_versions s t1 dst) None.
+Proof. exact live_tracks_versions. Qed.
+Print Assumptions C14_live_tracks_versions.
+
+(** dst existed at the start: "no file at dst" is outside what is visible, at
+    every instant and after a crash at every prefix. *)
+Theorem C14_never_absent : forall dst s t,
+  quiescent s dst -> trace_safe dst s t = true -> live_view s dst <> None ->
+  forall v, In v (visible_states s t dst) -> v <> None.
+Proof. exact never_absent. Qed.
+Print Assumptions C14_never_absent.
+
+(** dst did not exist at the start: from the first publication on a reader
+    always finds a file. *)
+Theorem C14_exists_after_publish : forall dst s t1 t2,
+  quiescent s dst -> trace_safe dst s (t1 ++ t2) = true -> versions s t1 dst <> [] ->
+  live_view (run s t1) dst <> None.
+Proof. exact exists_after_publish. Qed.
+Print Assumptions C14_exists_after_publish.
+
+(** Soundness of the checker for "renamed away / unlinked": wherever such an
+    operation stands in a trace, the trace is rejected ... *)
+Theorem C14_rename_away_rejected : forall dst s t1 b t2,
+  trace_safe dst s (t1 ++ Rename dst b :: t2) = false.
+Proof. exact rename_away_rejected. Qed.
+Print Assumptions C14_rename_away_rejected.
+
+Theorem C14_unlink_dst_rejected : forall dst s t1 t2,
+  trace_safe dst s (t1 ++ Unlink dst :: t2) = false.
+Proof. exact unlink_dst_rejected. Qed.
+Print Assumptions C14_unlink_dst_rejected.
+
+(** ... and the cheap existence pass evaluated on every recorded trace is
+    implied by acceptance. *)
+Theorem C14_trace_safe_dst_stays : forall dst t s, trace_safe dst s t = true -> dst_stays dst s t = true.
+Proof. exact trace_safe_dst_stays. Qed.
+Print Assumptions C14_trace_safe_dst_stays.
+
+(** Refuted shape: rename(dst, dst.bak) "to keep a backup", then the
+    write-to-temp shape.  Rejected, and for a reason: a reader, and a reboot
+    after a crash, find no file at dst. *)
+Theorem C14_rename_away_unsafe :
+  exists old new,
+    let s := boot [(1, old)] in
+    let t := backup_shape 3 9 2 1 [new] in
+    quiescent s 1 /\ live_view s 1 = Some old /\
+    trace_safe 1 s t = false /\ dst_stays 1 s t = false /\
+    In None (live_states s t 1) /\ In None (visible_states s t 1).
+Proof. exact rename_away_unsafe. Qed.
+Print Assumptions C14_rename_away_unsafe.
+
+Theorem C14_unlink_first_unsafe :
+  exists old new,
+    let s := boot [(1, old)] in
+    let t := Unlink 1 :: atomic_shape 3 2 1 [new] in
+    quiescent s 1 /\ trace_safe 1 s t = false /\ In None (visible_states s t 1).
+Proof. exact unlink_first_unsafe. Qed.
+Print Assumptions C14_unlink_first_unsafe.
+
+(** Concurrent saves.  Along an accepted trace a file is frozen from the
+    moment dst names it: no later operation of any thread, through any path
+    or any descriptor (also one opened before the publication), changes its
+    content, its durable content or its pending list.  Identity is the inode. *)
+Theorem C14_published_files_immutable : forall dst s t1 o t2 i,
+  quiescent s dst -> trace_safe dst s (t1 ++ o :: t2) = true ->
+  ever_at (run s t1) dst i = true ->
+  file_of (step (run s t1) o) i = file_of (run s t1) i.
+Proof. exact published_files_immutable. Qed.
+Print Assumptions C14_published_files_immutable.
+
+Theorem C14_open_published_for_write_rejected : forall dst s fd p fl i t,
+  aget (dir_cur s) p = Some i -> ever_at s dst i = true ->
+  o_wr fl || o_trunc fl || o_app fl = true ->
+  trace_safe dst s (Open fd p fl :: t) = false.
+Proof. exact open_published_for_write_rejected. Qed.
+Print Assumptions C14_open_published_for_write_rejected.
+
+Theorem C14_write_published_rejected : forall dst s fd e d t,
+  aget (fds s) fd = Some e -> ever_at s dst (fd_ino e) = true ->
+  trace_safe dst s (Write fd d :: t) = false.
+Proof. exact write_published_rejected. Qed.
+Print Assumptions C14_write_published_rejected.
+
+Theorem C14_rename_unsynced_rejected : forall dst s a i t,
+  a <> dst -> aget (dir_cur s) a = Some i -> f_pend (file_of s i) <> [] ->
+  trace_safe dst s (Rename a dst :: t) = false.
+Proof. exact rename_unsynced_rejected. Qed.
+Print Assumptions C14_rename_unsynced_rejected.
+
+(** Refuted shape: a FIXED temporary name opened with O_CREAT|O_TRUNC.  One
+    save after the other is accepted; an interleaving of two such saves is
+    rejected, and for a reason: the second open truncates the file the first
+    then publishes. *)
+Theorem C14_shared_tmp_overlap_unsafe :
+  exists old a b t,
+    let s := boot [(1, old)] in
+    let tA := fixed_tmp_shape 3 2 1 [a] in
+    let tB := fixed_tmp_shape 4 2 1 [b] in
+    quiescent s 1 /\
+    trace_safe 1 s (tA ++ tB) = true /\
+    all_versions s (tA ++ tB) 1 = [Some old; Some a; Some b] /\
+    In t (interleavings tA tB) /\
+    trace_safe 1 s t = false /\
+    exists v, In v (live_states s t 1) /\ v <> Some old /\ v <> Some a /\ v <> Some b.
+Proof. exact shared_tmp_overlap_unsafe. Qed.
+Print Assumptions C14_shared_tmp_overlap_unsafe.
+
 (** Failure paths clean up: a name created during the trace is gone at the
     end unless it is in [keep]. *)
 Theorem C14_no_leftovers : forall keep s t,
@@ -114,3 +227,16 @@ Example C14_checker_sound_premises :
   quiescent s 1 /\ trace_safe 1 s t = true /\ no_leftovers [1] s t = true /\
   all_versions s t 1 = [Some [1; 2]; Some [3; 4]; Some [5; 6; 7]].
 Proof. exact checker_sound_premises. Qed.
+
+Example C14_own_tmp_interleavings_safe :
+  let s := boot [(1, [1;2;3])] in
+  let tA := atomic_shape 3 2 1 [[4]; [5;6]] in
+  let tB := atomic_shape 4 5 1 [[7;8]; [9]] in
+  length (interleavings tA tB) = 924%nat /\
+  forallb (fun t => trace_safe 1 s t && no_leftovers [1] s t &&
+                    match all_versions s t 1 with
+                    | [Some [1;2;3]; Some [4;5;6]; Some [7;8;9]] => true
+                    | [Some [1;2;3]; Some [7;8;9]; Some [4;5;6]] => true
+                    | _ => false
+                    end) (interleavings tA tB) = true.
+Proof. exact own_tmp_interleavings_safe. Qed.
